@@ -128,13 +128,18 @@ def finding_matches(entry, prop, viol):
     if entry.get("property") != prop:
         return False
     sig = viol.get("sig", {})
-    for k, pat in entry.get("match", {}).items():
-        v = sig.get(k)
-        if v is None:
-            return False
-        if not re.fullmatch(pat, str(v), re.S):
-            return False
-    return True
+    m = entry.get("match", {})
+    alternatives = m if isinstance(m, list) else [m]      # a list = the same defect seen through several signatures
+
+    def one(alt):
+        for k, pat in alt.items():
+            v = sig.get(k)
+            if v is None:
+                return False
+            if not re.fullmatch(pat, str(v), re.S):
+                return False
+        return True
+    return any(one(a) for a in alternatives)
 
 
 def write_replay(check, case, viol, result):
